@@ -15,7 +15,7 @@
    refutation theorems only.  ByDate still carries closure state (finding C13-stateful-date:
    recorded, not repaired - no state-free order passes the package's own TestDateFallback). *)
 From Coq Require Import List NArith ZArith Bool Lia String.
-From RareV Require Import Base.Hex Gen.GenSortSets.
+From RareV Require Import Base.Hex Base.Num Gen.GenSortSets.
 Import ListNotations.
 
 (* ---------------------------------------------------------------- generic: comparators, reference sort *)
@@ -420,11 +420,46 @@ Definition mode_pure (m : mode) (its : list item) : option (item -> item -> bool
 Definition with_rev {A} (rv : bool) (f : A -> A -> bool) : A -> A -> bool :=
   if rv then reverse f else f.
 
+(* ---------------------------------------------------------------- the calendar as an independent check *)
+(* index of the calendar name that n abbreviates with at least 3 letters (from the hand-written
+   calendar above, NOT from the positions of the generated tables) *)
+Fixpoint cal_idx_from (i : nat) (names : list bytes) (n : bytes) : option nat :=
+  match names with
+  | [] => None
+  | x :: r => if (3 <=? List.length n)%nat && is_prefix n x then Some i else cal_idx_from (S i) r n
+  end.
+(* for a member of the weekday / month set: (set, calendar index of the day / month it abbreviates) *)
+Definition cal_of (k : key) : option (Z * nat) :=
+  let r := ctx_rank k in
+  let names := if (fst r =? 0)%Z then weekday_names
+               else if (fst r =? 1)%Z then month_names else [] in
+  match cal_idx_from 0 names (lower (kname k)) with Some i => Some (fst r, i) | None => None end.
+(* a placed before b by `contextual`: if both are days (both months) of different calendar index,
+   the earlier one comes first (last when reversed) *)
+Definition cal_ok (m : mode) (rv : bool) (a b : item) : bool :=
+  match m with
+  | MContextual =>
+      match cal_of (fst a), cal_of (fst b) with
+      | Some (s, i), Some (t, j) =>
+          negb (s =? t)%Z || Nat.eqb i j || Bool.eqb (i <? j)%nat (negb rv)
+      | _, _ => true
+      end
+  | _ => true
+  end.
+
 (* ---------------------------------------------------------------- correspondence cases and the boolean form *)
+(* events of a collector history: key k sampled with increment inc; the sorted view is read *)
+Inductive ev := ESample (k : nat) (inc : Z) | ERead.
+
 Inductive cin :=
 | IAx (md : bytes) (its : list item)                          (* every ordered pair, fresh sorter per pair *)
 | ISeq (md : bytes) (its : list item) (ps : list (nat * nat)) (* a sequence of comparisons on one sorter *)
-| ISort (md : bytes) (its : list item) (perms : list (list nat)). (* Sort of each arrangement, fresh sorter each *)
+| ISort (md : bytes) (its : list item) (perms : list (list nat)) (* Sort of each arrangement, fresh sorter each *)
+| ICollect (md : bytes) (bykey : bool) (keys : list key) (h : list ev).
+  (* a collector fed by a history of samples with intermediate reads (rendered frames); the final
+     read is observed. bykey = false: items (key, total) through a NameValueSorter (counters,
+     table rows / columns); bykey = true: AccumulatingGroup.Groups with sort expression {sum}:
+     groups ordered by a NameSorter on the decimal text of their total *)
 Inductive cout :=
 | OErr                                   (* BuildSorter returned an error *)
 | OAx (m : list (list bool))
@@ -436,7 +471,7 @@ Definition dummy_key := mkkey [] None FmtErr [].
 Definition dummy_item : item := (dummy_key, 0%Z).
 Definition it_at (its : list item) (i : nat) : item := nth i its dummy_item.
 
-Definition model (c : cin) : cout :=
+Definition model0 (c : cin) : cout :=
   match c with
   | IAx md its =>
       match parse_sort md with
@@ -456,6 +491,7 @@ Definition model (c : cin) : cout :=
           let c : scmp sstate (nat * item) := fun s a b => build_cmp mr s (snd a) (snd b) in
           OSort (map (fun p => map fst (fst (sisort c s_init (map (fun i => (i, it_at its i)) p)))) perms)
       end
+  | ICollect _ _ _ _ => OPanic   (* normalised away, see [norm] *)
   end.
 
 Definition list_nat_eqb := list_eqb Nat.eqb.
@@ -530,8 +566,9 @@ Definition is_perm_of_seq (n : nat) (p : list nat) : bool :=
            calendar position, chronological);
    - ISeq: the decisions are self-consistent;
    - ISort: every arrangement sorts to the same sequence, a permutation of the items, and, when
-           the key set lies in a state-free domain, ordered by the documented order. *)
-Definition C13_check (c : cin) (o : cout) : bool :=
+           the key set lies in a state-free domain, ordered by the documented order; for
+           `contextual`, days (months) of the sorted sequence follow the hand-written calendar. *)
+Definition C13_check0 (c : cin) (o : cout) : bool :=
   match c, o with
   | IAx md its, OAx m =>
       match parse_sort md with
@@ -563,7 +600,8 @@ Definition C13_check (c : cin) (o : cout) : bool :=
               match mode_pure md' its with
               | Some f => sortedb (with_rev rv f) (map (it_at its) o1)
               | None => true
-              end
+              end &&
+              sortedb (cal_ok md' rv) (map (it_at its) o1)
           end
       end
   | IAx md _, OErr | ISeq md _ _, OErr | ISort md _ _, OErr =>
@@ -572,8 +610,9 @@ Definition C13_check (c : cin) (o : cout) : bool :=
   end.
 
 (* the guard of C13_check_sound: the key set of a case lies in a state-free domain *)
-Definition in_domain (c : cin) : bool :=
+Definition in_domain0 (c : cin) : bool :=
   match c with
+  | ICollect _ _ _ _ => false
   | IAx md its | ISeq md its _ | ISort md its _ =>
       match parse_sort md with
       | None => true
@@ -582,12 +621,55 @@ Definition in_domain (c : cin) : bool :=
   end.
 
 (* well-formed cases: distinct key names, indices in range, arrangements are arrangements *)
-Definition case_wf (c : cin) : bool :=
+Definition case_wf0 (c : cin) : bool :=
   match c with
+  | ICollect _ _ _ _ => false
   | IAx _ its => key_names_distinct its
   | ISeq _ its ps =>
       key_names_distinct its &&
       forallb (fun p : nat * nat => (fst p <? List.length its)%nat && (snd p <? List.length its)%nat) ps
   | ISort _ its perms =>
       key_names_distinct its && forallb (is_perm_of_seq (List.length its)) perms
+  end.
+
+(* ---------------------------------------------------------------- collectors over histories *)
+(* The sorted view of a collector is a function of the FINAL aggregated data: reads in the middle
+   of the history (rendered frames) are ignored by the model, only the samples count. *)
+Fixpoint total (h : list ev) (i : nat) : Z :=
+  match h with
+  | [] => 0%Z
+  | ESample k inc :: r => ((if Nat.eqb k i then inc else 0) + total r i)%Z
+  | ERead :: r => total r i
+  end.
+Fixpoint sampled (h : list ev) (i : nat) : bool :=
+  match h with
+  | [] => false
+  | ESample k _ :: r => Nat.eqb k i || sampled r i
+  | ERead :: r => sampled r i
+  end.
+(* the sort key `reduce --sort {sum}` evaluates for a group: the decimal text of its total
+   (an integer below 2^53 in absolute value parses to itself as a float) *)
+Definition numkey (t : Z) : key := mkkey (itoa t) (Some (FFin t 0)) FmtErr [].
+Definition final_items (bykey : bool) (keys : list key) (h : list ev) : list item :=
+  map (fun ik : nat * key =>
+         let t := total h (fst ik) in
+         if bykey then (numkey t, 0%Z) else (snd ik, t))
+      (combine (seq 0 (List.length keys)) keys).
+
+(* a collector case is the sort of its final items from one arrangement *)
+Definition norm (c : cin) : cin :=
+  match c with
+  | ICollect md bk keys h => ISort md (final_items bk keys h) [seq 0 (List.length keys)]
+  | _ => c
+  end.
+
+Definition model (c : cin) : cout := model0 (norm c).
+Definition C13_check (c : cin) (o : cout) : bool := C13_check0 (norm c) o.
+Definition in_domain (c : cin) : bool := in_domain0 (norm c).
+(* every key of a collector history is sampled at least once (only sampled keys exist in the map) *)
+Definition case_wf (c : cin) : bool :=
+  case_wf0 (norm c) &&
+  match c with
+  | ICollect _ _ keys h => forallb (sampled h) (seq 0 (List.length keys))
+  | _ => true
   end.
